@@ -87,6 +87,7 @@ type Ctx struct {
 	viewResult bool           // the slice being created is a view into a ghost stream array
 	frameTop string           // allocation horizon used by loop frame conditions
 	skipFrameInit bool
+	declared     map[string]bool
 	loopEntryEnv map[int]*CEnv // per loop ordinal: contract environment over the state in which the loop was entered
 	loopHeadEnv map[int]*CEnv // per loop ordinal: contract environment over the state at the head of the current iteration
 	edgeConds []edgeCond // path conditions of the CFG edges of the root function (dead-edge diagnostic)
@@ -97,6 +98,17 @@ type inputVar struct {
 	Name string // param name / path
 	Val  Val
 	T    types.Type
+}
+
+// declareOnce adds a global declaration (uninterpreted ghost functions) once per verification context.
+func (c *Ctx) declareOnce(decl string) {
+	if c.declared == nil {
+		c.declared = map[string]bool{}
+	}
+	if !c.declared[decl] {
+		c.declared[decl] = true
+		c.decls = append(c.decls, decl)
+	}
 }
 
 func (c *Ctx) fresh(pfx, sort string) string {
